@@ -1,6 +1,6 @@
 SPECIFICATION Spec
 CONSTANTS
-  Contents <- C1
+  Contents <- C2
   Sources <- Both
   BuildDepth = 3
   EvalDepth = 2
